@@ -86,6 +86,8 @@ def gen_case(rng, tier):
             spec[id_] = (md, spec[id_][1])
         else:
             cmds.append('reopen')
+    if rng.random() < 0.4:
+        cmds.append('failexport')          # an export of another collection fails first, in the same process
     cmds += ['docs', 'export', 'import']
     return cmds, spec, {'dim': dim, 'q': q, 'metric': metric}
 
